@@ -124,6 +124,7 @@ def run(chk, tier, seed):
             raise HarnessError(f"replay of known finding {k['key']} crashed: {e!r}")
         if k['key'] in a2.violations or k['key'] in acc.violations:
             still.add(k['key'])
+            write_replay(chk.ID, k['key'], k['what'], k['witness'], tier)      # replayable artefact of the listed finding
             print(f"KNOWN-FINDING: property={chk.ID} {k['key']}: {k['what']}")
         else:
             print(f"note: listed finding no longer reproduces: {k['key']}", file=sys.stderr)
